@@ -6,4 +6,9 @@ if ! PYTHONPATH=.deps /venv/bin/python -c "import hypothesis" 2>/dev/null; then
     mkdir -p .deps
     /venv/bin/pip install --no-index --find-links /opt/veriftools/wheels --target .deps hypothesis
 fi
+# optional second driver (coverage-guided fuzzing of the parsers); the C17 clause reports "skipped" if it is unavailable
+if ! PYTHONPATH=.deps /venv/bin/python -c "import atheris" 2>/dev/null; then
+    mkdir -p .deps
+    /venv/bin/pip install --no-index --find-links /opt/veriftools/wheels --target .deps atheris || true
+fi
 PYTHONPATH=.deps PYTHONHASHSEED=0 /venv/bin/python harness/selftest.py
